@@ -222,7 +222,7 @@ def _order_sweep_c02(seed, tier, cov):
 
 def _order_sweep_c04(seed, tier, cov):
     import translated
-    return translated.order_sweep_c04(seed, tier, cov)
+    return translated.order_sweep_c04(seed, tier, cov) + translated.expiry_sweep_c04(seed, tier, cov)
 
 
 TRANSLATOR_NOTE = (" Translator tie (harness/py2coq_order.py, fail-closed Python-ast -> Gallina): the comparison operators and is_expired of "
@@ -477,6 +477,20 @@ CANCEL_NOTE = (" Translator tie (harness/py2coq_cancel.py; OrderBook.cancel in c
 for _p in ("C04", "C08", "C10"):
     CLAIMS[_p]["ties"] += (_cancel_tie,)
     CLAIMS[_p]["text"] += CANCEL_NOTE
+
+
+def _expire_tie():
+    import translated
+    return translated.expire_tie()
+
+
+CLAIMS["C04"]["ties"] += (_expire_tie,)
+CLAIMS["C04"]["text"] += (" Translator tie (harness/py2coq_expire.py; the expiry index as an insertion-ordered dict in coq/theories/ExpirePy.v): OrderBook._check_expired_orders "
+                          "and OrderBook._set_time are REGENERATED from /repo's source on every run and coq/translated/ExpireC04Proofs.v is re-checked against the generated text: "
+                          "the buckets dropped are exactly those strictly older than the new time, whatever the size of the clock step; with every order filed under accept time + "
+                          "ttl, the records reported are exactly the filed orders past their time to live, each as it is and at the new time, they are removed from the queue, and "
+                          "nothing that stays filed is past its time to live. A directed search moves the clock of a real Market by one and by several steps (Market._set_time) "
+                          "and reads the property off the book and the expiry records.")
 CLAIMS["C06"]["text"] += TICK_NOTE
 CLAIMS["C06"]["text"] += (" Translator tie (harness/py2coq_series.py): Market._fill_until is REGENERATED from /repo's source on every run - which series is assigned, which one is "
                           "extended, whose length is measured and the padding value are read from each statement - and coq/translated/SeriesC06Proofs.v is re-checked against the "
